@@ -1,0 +1,14 @@
+//go:build verif
+
+package stdlib
+
+// VerifYield, when set, is called at the lifecycle yield points of a
+// context (pushBusy, popBusy, Close) so that a controlling scheduler can
+// enumerate interleavings. Only compiled with -tags verif.
+var VerifYield func(point string)
+
+func verifYield(point string) {
+	if f := VerifYield; f != nil {
+		f(point)
+	}
+}
